@@ -1,7 +1,7 @@
 (* Proofs about model/NumFn.v: each transcribed function against its mathematical definition, for
    every width w (universally quantified, no finite sweep). *)
 From Coq Require Import ZArith List Bool Lia ZifyBool Znumtheory.
-From GV Require Import model.Arith model.Decimal model.NumFn proofs.ArithProofs proofs.DecimalProofs.
+From GV Require Import model.Arith model.Decimal model.NumFn proofs.ArithProofs proofs.DecimalProofs gen.TablesNumfn.
 Import ListNotations.
 Open Scope Z_scope.
 
@@ -862,3 +862,197 @@ Lemma spec_cmp_reflects : forall a b,
   (spec_cmp CLt a b = true <-> a < b) /\ (spec_cmp CLe a b = true <-> a <= b) /\ (spec_cmp CEq a b = true <-> a = b) /\
   (spec_cmp CNe a b = true <-> a <> b) /\ (spec_cmp CGe a b = true <-> a >= b) /\ (spec_cmp CGt a b = true <-> a > b).
 Proof. intros a b. cbn [spec_cmp]. repeat split; lia. Qed.
+
+(* ================================================================== the repaired variants *)
+Lemma gcd_rem : forall a b, Z.gcd b (Z.rem a b) = Z.gcd a b.
+Proof.
+  intros a b. destruct (Z.eq_dec b 0) as [E|E].
+  - subst b. rewrite Z.rem_0_r_ext by reflexivity. apply Z.gcd_comm.
+  - rewrite (Z.rem_eq a b E). replace (a - b * (a ÷ b)) with (a + (- (a ÷ b)) * b) by ring.
+    rewrite Z.gcd_add_mult_diag_r. apply Z.gcd_comm.
+Qed.
+
+Lemma rem_signed_in_range : forall w a b, 0 < w -> b <> 0 -> in_range Signed w b = true ->
+  in_range Signed w (Z.rem a b) = true.
+Proof.
+  intros w a b Hw Hb Hr. apply signed_range in Hr. apply signed_range.
+  pose proof (abs_rem_lt a b Hb). lia.
+Qed.
+
+Lemma euclid_c_gcd : forall fuel w a b g, 0 < w -> in_range Signed w a = true -> in_range Signed w b = true ->
+  euclid_c fuel a b = Some g -> Z.abs g = Z.gcd a b /\ in_range Signed w g = true.
+Proof.
+  induction fuel as [|f IH]; intros w a b g Hw Ha Hb He; cbn [euclid_c] in He.
+  - destruct (b =? 0) eqn:Eb; [|discriminate]. apply Z.eqb_eq in Eb. subst b. inversion He. subst g.
+    rewrite Z.gcd_0_r. split; [reflexivity|assumption].
+  - destruct (b =? 0) eqn:Eb.
+    + apply Z.eqb_eq in Eb. subst b. inversion He. subst g. rewrite Z.gcd_0_r. split; [reflexivity|assumption].
+    + apply Z.eqb_neq in Eb. unfold rem_checked in He. replace (b =? 0) with false in He by lia.
+      destruct (IH w b (Z.rem a b) g Hw Hb (rem_signed_in_range w a b Hw Eb Hb) He) as [H1 H2].
+      split; [|assumption]. rewrite H1. apply gcd_rem.
+Qed.
+
+Lemma euclid_c_terminates : forall n a b, Z.abs b < 2 ^ Z.of_nat n -> euclid_c (S (2 * n)) a b <> None.
+Proof.
+  induction n as [|n IH]; intros a b Hb.
+  - cbn [Z.of_nat] in Hb. change (2 ^ 0) with 1 in Hb. assert (b = 0) by lia. subst b. cbn. discriminate.
+  - replace (S (2 * S n)) with (S (S (S (2 * n)))) by lia.
+    cbn [euclid_c]. destruct (b =? 0) eqn:Eb; [discriminate|]. apply Z.eqb_neq in Eb.
+    assert (R1 : rem_checked a b = Some (Z.rem a b)) by (unfold rem_checked; replace (b =? 0) with false by lia; reflexivity).
+    rewrite R1. set (r1 := Z.rem a b).
+    destruct (r1 =? 0) eqn:Er1; [discriminate|]. apply Z.eqb_neq in Er1.
+    assert (R2 : rem_checked b r1 = Some (Z.rem b r1)) by (unfold rem_checked; replace (r1 =? 0) with false by lia; reflexivity).
+    rewrite R2.
+    apply IH.
+    pose proof (abs_rem_lt a b Eb) as H1. fold r1 in H1.
+    rewrite <- Z.rem_abs by assumption. rewrite Z.rem_mod_nonneg by lia.
+    pose proof (mod_halves (Z.abs b) (Z.abs r1) ltac:(lia) H1) as H2.
+    rewrite Nat2Z.inj_succ, Z.pow_succ_r in Hb by lia. lia.
+Qed.
+
+Lemma euclid_c_fuel_ok : forall w a b, 0 < w -> in_range Signed w b = true -> euclid_c (euclid_fuel w) a b <> None.
+Proof.
+  intros w a b Hw Hb. unfold euclid_fuel. apply euclid_c_terminates.
+  rewrite Z2Nat.id by lia. apply signed_range in Hb.
+  pose proof (pow2_split w Hw). pose proof (pow2_pos (w - 1) ltac:(lia)). lia.
+Qed.
+
+(* |g| through neg_checked is exactly "representable or an error" *)
+Lemma abs_checked_spec : forall w g, 0 < w -> in_range Signed w g = true ->
+  of_opt (abs_checked w g) = spec_of Signed w (Some (Z.abs g)).
+Proof.
+  intros w g Hw Hg. unfold abs_checked, neg_checked, spec_of. destruct (g <? 0) eqn:E.
+  - rewrite Z.abs_neq by lia. destruct (in_range Signed w (- g)); reflexivity.
+  - rewrite Z.abs_eq by lia. rewrite Hg. reflexivity.
+Qed.
+
+Lemma gcd_c_correct : forall w a b, 0 < w -> in_range Signed w a = true -> in_range Signed w b = true ->
+  impl_gcd_c w a b = Some (spec_gcd w a b).
+Proof.
+  intros w a b Hw Ha Hb. unfold impl_gcd_c, spec_gcd.
+  destruct (euclid_c (euclid_fuel w) a b) as [g|] eqn:Ee.
+  - destruct (euclid_c_gcd _ w a b g Hw Ha Hb Ee) as [H1 H2]. cbn [option_map].
+    rewrite abs_checked_spec by assumption. rewrite H1. reflexivity.
+  - exfalso. revert Ee. apply euclid_c_fuel_ok; assumption.
+Qed.
+
+Lemma lcm_signed_formula : forall a b g, a <> 0 -> Z.abs g = Z.gcd a b -> Z.abs (Z.quot a g * b) = Z.lcm a b.
+Proof.
+  intros a b g Ha Hg.
+  assert (Hg0 : g <> 0).
+  { intro E. subst g. cbn in Hg. symmetry in Hg. apply Z.gcd_eq_0_l in Hg. contradiction. }
+  rewrite Z.abs_mul, <- Z.quot_abs by assumption. rewrite Hg. apply lcm_formula. assumption.
+Qed.
+
+Lemma lcm_c_correct : forall w a b, 0 < w -> in_range Signed w a = true -> in_range Signed w b = true ->
+  impl_lcm_c w a b = Some (spec_lcm w a b).
+Proof.
+  intros w a b Hw Ha Hb. unfold impl_lcm_c, spec_lcm.
+  pose proof (lo_signed_neg w Hw) as Hlo. pose proof (hi_signed w) as Hhi.
+  destruct (Z.eq_dec a 0) as [Za|Za].
+  { subst a. cbn [Z.eqb orb]. rewrite Z.lcm_0_l. unfold spec_of. rewrite Ha. reflexivity. }
+  destruct (Z.eq_dec b 0) as [Zb|Zb].
+  { subst b. rewrite Z.eqb_refl, orb_true_r. rewrite Z.lcm_0_r. unfold spec_of. rewrite Hb. reflexivity. }
+  replace (a =? 0) with false by lia. replace (b =? 0) with false by lia. cbn [orb].
+  destruct (euclid_c (euclid_fuel w) a b) as [g|] eqn:Ee.
+  2:{ exfalso. revert Ee. apply euclid_c_fuel_ok; assumption. }
+  destruct (euclid_c_gcd _ w a b g Hw Ha Hb Ee) as [Hg Hgr]. cbn [option_map]. f_equal.
+  pose proof (lcm_signed_formula a b g Za Hg) as HL.
+  pose proof (Z.gcd_nonneg a b) as Hn.
+  assert (Hg0 : g <> 0).
+  { intro E. subst g. cbn in Hg. symmetry in Hg. apply Z.gcd_eq_0_l in Hg. contradiction. }
+  unfold div_checked, div_fault. replace (g =? 0) with false by lia. cbn [orb].
+  destruct ((a =? lo Signed w) && (g =? -1)) eqn:Ef.
+  - (* MIN / -1: the lcm is |MIN| * |b| *)
+    apply andb_true_iff in Ef. destruct Ef as [E1 E2]. apply Z.eqb_eq in E1. apply Z.eqb_eq in E2. subst g.
+    cbn [of_opt]. unfold spec_of.
+    replace (in_range Signed w (Z.lcm a b)) with false; [reflexivity|].
+    symmetry. apply in_range_false_iff. rewrite <- HL.
+    assert (Hq : a ÷ -1 = - a).
+    { transitivity (- (a ÷ 1)); [exact (Z.quot_opp_r a 1 ltac:(lia))|rewrite Z.quot_1_r; reflexivity]. }
+    rewrite Hq, Z.abs_mul, Z.abs_opp. rewrite E1. cbn [lo hi] in *. nia.
+  - unfold mul_checked. set (v := Z.quot a g * b) in *.
+    destruct (in_range Signed w v) eqn:Ev.
+    + rewrite abs_checked_spec by assumption. rewrite HL. reflexivity.
+    + cbn [of_opt]. unfold spec_of.
+      replace (in_range Signed w (Z.lcm a b)) with false; [reflexivity|].
+      symmetry. apply in_range_false_iff. apply in_range_false_iff in Ev. rewrite <- HL. lia.
+Qed.
+
+Lemma factorial_c_correct : forall n, impl_factorial_c n = Some (spec_factorial n).
+Proof.
+  intros n. unfold impl_factorial_c, spec_factorial. fold (zf n). destruct (n <? 0) eqn:E0; [reflexivity|].
+  destruct ((n =? 0) || (n =? 1)) eqn:E1.
+  - assert (n = 0 \/ n = 1) as [H|H] by lia; subst n; vm_compute; reflexivity.
+  - rewrite (fact_loop_spec fact_fuel 2 n 1); try lia; try reflexivity.
+    + destruct (in_range Signed 128 (zf n)); reflexivity.
+    + unfold fact_fuel. lia.
+Qed.
+
+Lemma shr_c_correct : forall sg w a b, 0 < w <= 2 ^ 31 -> in_range Signed 32 b = true -> in_range sg w a = true ->
+  impl_shr_c sg w a b = spec_shr sg w a b.
+Proof.
+  intros sg w a b Hw Hb Ha. unfold impl_shr_c, spec_shr. destruct (b <? 0) eqn:E.
+  - pose proof (as_u32_neg b ltac:(lia) Hb). replace (as_u32 b <? w) with false by lia.
+    replace (0 <? b) with false by lia. reflexivity.
+  - rewrite as_u32_nonneg by (assumption || lia). rewrite Z.shiftr_div_pow2 by lia.
+    destruct (b <? w) eqn:E2; [reflexivity|].
+    replace (0 <? b) with true by lia. f_equal.
+    pose proof (pow2_split w ltac:(lia)) as Hs. pose proof (pow2_pos (w - 1) ltac:(lia)) as Hp.
+    assert (Hwb : 2 ^ w <= 2 ^ b) by (apply Z.pow_le_mono_r; lia).
+    apply in_range_iff in Ha.
+    destruct (Z.lt_ge_cases a 0) as [Hn|Hn].
+    + assert (sg = Signed) by (destruct sg; [reflexivity|cbn [lo] in Ha; lia]). subst sg. cbn [lo hi] in Ha.
+      replace (a / 2 ^ (w - 1)) with (-1) by (apply (Z.div_unique _ _ _ (a + 2 ^ (w - 1))); lia).
+      change (-1 / 2) with (-1). apply (Z.div_unique _ _ _ (a + 2 ^ b)); lia.
+    + rewrite (Z.div_small a (2 ^ b)) by (destruct sg; cbn [lo hi] in Ha; lia).
+      destruct (Z.lt_ge_cases a (2 ^ (w - 1))) as [Hs1|Hs1].
+      * rewrite (Z.div_small a (2 ^ (w - 1))) by lia. reflexivity.
+      * replace (a / 2 ^ (w - 1)) with 1; [reflexivity|].
+        apply (Z.div_unique _ _ _ (a - 2 ^ (w - 1))); destruct sg; cbn [lo hi] in Ha; lia.
+Qed.
+
+Lemma round_val_no_panic : forall kd p diff amount v, round_val kd p diff amount v <> Panic.
+Proof.
+  intros kd p diff amount v. unfold round_val, checked.
+  repeat match goal with |- context [if ?c then _ else _] => destruct c end; cbn [bind_out];
+    repeat match goal with |- context [if ?c then _ else _] => destruct c end; discriminate.
+Qed.
+
+Lemma round_c_never_panics : forall kd p s n v, impl_round_c kd p s n v <> Panic.
+Proof.
+  intros kd p s n v. unfold impl_round_c, round_bind_c, checked.
+  destruct (in_range Signed 8 n); [|discriminate].
+  destruct (in_range Signed 8 (s - Z.min n s)); cbn [bind_out]; [|discriminate].
+  destruct (in_range Signed (prim_bits kd) (10 ^ Z.abs (s - Z.min n s))); cbn [bind_out]; [|discriminate].
+  pose proof (round_val_no_panic kd p (s - Z.min n s) (10 ^ Z.abs (s - Z.min n s)) v) as H.
+  destruct (round_val kd p (s - Z.min n s) (10 ^ Z.abs (s - Z.min n s)) v); cbn [bind_out]; try discriminate.
+  contradiction.
+Qed.
+
+Lemma round_c_correct_partial : forall kd p s n v, 0 <= p <= maxp kd -> -128 <= s ->
+  in_range Signed 8 n = true -> s - Z.min n s <= maxp kd -> Z.abs v < 10 ^ p ->
+  impl_round_c kd p s n v = spec_round p s n v.
+Proof.
+  intros kd p s n v Hp Hs Hn Hd Hv. rewrite <- (round_correct_partial Debug kd p s n v) by assumption.
+  unfold impl_round_c, impl_round. f_equal.
+  rewrite round_bind_ok by assumption. unfold round_bind_c. rewrite Hn.
+  assert (Hm : maxp kd <= 38) by (destruct kd; cbn; lia).
+  replace (in_range Signed 8 (s - Z.min n s)) with true by (symmetry; apply signed_range; cbn; lia).
+  cbn [bind_out]. rewrite Z.abs_eq by lia.
+  pose proof (pow10_le_max kd (s - Z.min n s) ltac:(lia)). destruct (prim_room kd) as [Hhi Hlo].
+  assert (0 <= 10 ^ maxp kd / 2) by (apply Z.div_pos; lia).
+  unfold checked. replace (in_range Signed (prim_bits kd) (10 ^ (s - Z.min n s))) with true; [reflexivity|].
+  symmetry. apply in_range_iff. lia.
+Qed.
+
+Lemma round_c_witness : impl_round_c D64 10 4 (-128) 1 = Err /\ impl_round_c D64 10 4 (-2) 12545678 = Ok (-2, 13).
+Proof. vm_compute. split; reflexivity. Qed.
+
+(* ------------------------------------------------------------------ which variant the source has *)
+Definition style_of (k : Z) : style := if k =? 0 then Checked else Native.
+
+Lemma src_variants_known : exists g l f s r,
+  gcd_native = Some g /\ lcm_native = Some l /\ factorial_null = Some f /\ shr_zero_fill = Some s /\
+  d2d_scale_sub_native = Some r /\ In g [0; 1] /\ In l [0; 1] /\ In f [0; 1] /\ In s [0; 1] /\ In r [0; 1].
+Proof. do 5 eexists. repeat split; try reflexivity; vm_compute; tauto. Qed.
